@@ -276,6 +276,77 @@ def check(ctx):
                "every path from the print to the exit sets the warned flag" if p is None else
                "path from the print to the exit that never sets _obsolete_warned: " + " -> ".join(repr(x) for x in p),
                clause="warning printed exactly once")
+    # Which attribute names are exempt from the warning?  The facts about the NAME at the print site are a predicate over
+    # strings; it is evaluated here on the finite set of names the class itself looks up on a list.  The bookkeeping
+    # attributes must be exempt (the guard reads them), every callable through which items are handed on must not be:
+    # slicing, +, * and copy reach Python-level lookup only through self._new.
+    NAMEP = ga.params[1] if len(ga.params) > 1 else "name"
+
+    def name_pred(expr, name):
+        """True/False for a string predicate over NAMEP, None when it is not one."""
+        if isinstance(expr, ast.UnaryOp) and isinstance(expr.op, ast.Not):
+            v = name_pred(expr.operand, name)
+            return None if v is None else (not v)
+        if isinstance(expr, ast.BoolOp):
+            vs = [name_pred(v, name) for v in expr.values]
+            if any(v is None for v in vs):
+                return None
+            return all(vs) if isinstance(expr.op, ast.And) else any(vs)
+        if isinstance(expr, ast.Compare) and len(expr.ops) == 1:
+            l, op, r = expr.left, expr.ops[0], expr.comparators[0]
+            if isinstance(l, ast.Constant) and isinstance(l.value, str) and isinstance(r, ast.Name) and r.id == NAMEP \
+                    and isinstance(op, (ast.In, ast.NotIn)):
+                return (l.value in name) == isinstance(op, ast.In)
+            if isinstance(l, ast.Name) and l.id == NAMEP and isinstance(op, (ast.In, ast.NotIn)) and isinstance(r, (ast.Tuple, ast.List, ast.Set)) \
+                    and all(isinstance(e, ast.Constant) for e in r.elts):
+                return (name in [e.value for e in r.elts]) == isinstance(op, ast.In)
+            if isinstance(l, ast.Name) and l.id == NAMEP and isinstance(op, (ast.Eq, ast.NotEq)) and isinstance(r, ast.Constant):
+                return (name == r.value) == isinstance(op, ast.Eq)
+        if isinstance(expr, ast.Call) and isinstance(expr.func, ast.Attribute) and isinstance(expr.func.value, ast.Name) \
+                and expr.func.value.id == NAMEP and expr.func.attr in ("startswith", "endswith") and len(expr.args) == 1 \
+                and isinstance(expr.args[0], ast.Constant) and isinstance(expr.args[0].value, str):
+            return getattr(name, expr.func.attr)(expr.args[0].value)
+        return None
+    import ast as _ast
+    for pc in prints:
+        conds = []
+        for k, t in facts_at(ga, pc):
+            if NAMEP not in t or t.startswith("iter:"):
+                continue
+            try:
+                e = _ast.parse(t, mode="eval").body
+            except SyntaxError:
+                continue
+            if any(isinstance(x, ast.Name) and x.id == NAMEP for x in ast.walk(e)):
+                conds.append((k, e, t))
+
+        def warns(name):
+            out = True
+            for k, e, t in conds:
+                v = name_pred(e, name)
+                if v is None:
+                    return None
+                out = out and (v if k == "T" else not v)
+            return out
+        must_exempt = ["_obsolete", "_obsolete_warned"]
+        handed_on = sorted({c.func.attr for m_ in cls.methods.values() for _, c in calls_in(m_)
+                            if isinstance(c.func, ast.Attribute) and isinstance(c.func.value, ast.Name) and m_.params
+                            and c.func.value.id == m_.params[0] and c.func.attr in cls.methods})
+        public = sorted(n_ for n_ in cls.methods if not n_.startswith("_"))
+        vals = {n_: warns(n_) for n_ in must_exempt + handed_on + public}
+        if any(v is None for v in vals.values()):
+            ctx.note("EFF-2: the name guard of __getattribute__ is not a string predicate this check can evaluate; not judged")
+            continue
+        bad_ex = [n_ for n_ in must_exempt if vals[n_]]
+        bad_w = [n_ for n_ in handed_on + public if not vals[n_]]
+        ok = not bad_ex and not bad_w
+        ctx.ob("EFF-2", ga, f"name guard {[t for _, _, t in conds]} evaluated on {len(vals)} attribute names", pc, ok,
+               "only the bookkeeping attributes are exempt from the warning; every method the class calls on itself (incl. _new) and "
+               "every public method triggers it" if ok else
+               (f"lookups of {bad_w[:6]} no longer trigger the warning: slicing, +, * and copy reach Python-level attribute lookup only "
+                f"through self._new, so an obsolete list used that way hands its edited items on silently" if bad_w else
+                f"the guard reads {bad_ex} through __getattribute__ itself without exempting them"),
+               clause="print the warning exactly once on their next use")
     # obsolete methods themselves must stay silent ('obsolete' not in name)
     init = repo.fn(f"{LOD}.__init__")
     for attr, expect in (("_obsolete", False), ("_obsolete_warned", False), ("_predecessor", None)):
